@@ -1,4 +1,5 @@
 # C06 — mutexes give mutual exclusion and always hand the lock on (structural part; DESIGN.md §5 C06)
+import re
 from engine.core import AnalysisBroken, P, T, callee_of, callee_short, cond_atoms, loc_of, strip, forward, block_path, walk
 from engine.kinds import LockFlow, FactFlow, CountFlow, check_guarded, always_followed_by
 from .common import facts, lib, driver, witness, local_init
